@@ -1,19 +1,19 @@
 SPECIFICATION Spec
 CONSTANTS
-  LabOrder <- LabAB
+  LabOrder <- LabABC
   R = 4
   Gaps = {1}
-  Kinds = {"zero", "own"}
-  ScrapeSets = {}
-  MaxClk = 6
+  Kinds = {"zero"}
+  ScrapeSets = {{"a", "b"}, {"a"}, {"b"}, {"c"}}
+  MaxClk = 8
   OOOBack = {2}
   Snap = FALSE
   FastOpts = {FALSE}
   Fast0 = FALSE
   AllowKF = {}
-  Acts = {"Scrape", "Rollback", "Cross", "OOO", "Mmap", "CompactHead", "CompactOOO", "EvictSel", "Cut", "Restart", "Crash"}
-  Script <- NoScript
-  MaxOps = 4
+  Acts = {"Scrape"}
+  Script <- ScriptDup
+  MaxOps = 7
   EmitMode = "class"
 VIEW View
 INVARIANTS RightLabels NoReuse MapsAgree AllocAbove
